@@ -151,11 +151,24 @@ def run(ctx):
                            "operation_name": opname, "variables": vvars, "config": config, "class": cls, "nan_world": nan}
                 root = case.root_for(op)
                 case.binding.calls = []
+                # a fifth of the parseable requests are handed over as Document objects, half of those
+                # parsed without positions
+                request = vtext
+                if rng.random() < 0.2:
+                    try:
+                        from py_gql.lang import parse
+
+                        no_loc = rng.random() < 0.5
+                        request = parse(vtext, no_location=no_loc)
+                        witness["pre_parsed_document"] = "no_location" if no_loc else "with locations"
+                        ctx.count("requests_with_pre_parsed_document")
+                    except Exception:
+                        request = vtext
                 ctx.evaluated()
                 ctx.count("requests:" + config)
                 ctx.count("class:" + cls)
                 try:
-                    result = issue(config, case, vtext, opname, vvars, root)
+                    result = issue(config, case, request, opname, vvars, root)
                 except RuntimeError as e:
                     if nan and "cannot be serialized" in str(e):
                         ctx.count("non-finite-float-refused-by-serialiser")
